@@ -163,15 +163,16 @@ CLAIMED["C08"] = dict(
          "C08_first_arm / C08_skip_arm - evalArms runs exactly the first arm whose pattern matches, with its bindings; "
          "C08_firstMatch_spec - firstMatch v pats = some i iff arm i matches and no earlier arm does; C08_literal_exact / "
          "C08_range_exact - a literal pattern matches exactly its number, a range pattern exactly lo..=hi; C08_uncovered_sound - "
-         "whenever the reference procedure `uncovered` returns a value, no arm matches it. PARTIAL: the exhaustiveness algorithm "
-         "of check.rs is not modelled and the completeness of `uncovered` (nothing returned => every value is matched) is argued "
-         "in DESIGN.md, not proved. On every run check.rs's verdict on thousands of generated (type, arms) pairs - exact "
+         "whenever the reference procedure `uncovered` returns a value, no arm matches it; C08_uncovered_complete - when it "
+         "returns nothing, EVERY well-typed value of the scrutinee's type is matched by some arm (every value has a "
+         "representative that no pattern over the same constants can tell apart from it): the reference decides "
+         "exhaustiveness exactly. PARTIAL: the exhaustiveness algorithm of check.rs itself is not modelled. On every run check.rs's verdict on thousands of generated (type, arms) pairs - exact "
          "partitions, partitions with a hole, a moved bound, an extra or a missing arm, `..` struct patterns, nested enums - is "
          "compared with `uncovered`; every reported missing case must denote a value and only unmatched values; accepted matches "
          "are compiled and evaluated on all representative values against firstMatch.",
     design_ref="DESIGN.md §6 C08",
     note="trusted: Lean kernel; matchPat is the hand-written meaning of patterns; `uncovered` enumerates representative values "
-         "(type bounds and c-1, c, c+1 for every constant of the patterns) - sound by theorem, complete by the argument in DESIGN.md",
+         "(type bounds and c-1, c, c+1 for every constant of the patterns) - sound and complete by theorem",
     technique="Lean 4 proof (first-match semantics, soundness of the reference exhaustiveness procedure) + verdict comparison",
 )
 
